@@ -1430,10 +1430,13 @@ def check_cplusplus(R):
         R.wrap("cplusplus", name)
         if not simple_numeric(p) or any(cclass(tt) == "str" for tt, a in p["args"][1:-1]):
             proto_violation(R, "cplusplus", name, "argtype", case, "double f([const char*,] int|double..., xrl_error**) as the template calls it", c_sig(p))
+    hand_called = set(re.findall(r"(?<![\w>:])::\s*([A-Za-z]\w*)\s*\(", s_nodef))
     for name, p in C.public.items():
-        if p["header"] == "xraylib.h" and simple_numeric(p):
+        # every plain numeric C function must be reachable from C++: through the macro, or through a hand-written wrapper that calls it
+        # (decided by what the prototype looks like, not by the header it is declared in)
+        if simple_numeric(p) and p["header"] != "xraylib-deprecated.h":
             R.cmp("complete:cplusplus:function")
-            if name not in listed:
+            if name not in listed and name not in hand_called:
                 st.violation("missing:cplusplus:function:%s" % name, dict(binding="cplusplus", function=name, file=fl),
                              expected="_XRL_FUNCTION(%s) (declared in xraylib.h: %s)" % (name, c_sig(p)), got="not wrapped")
     for m in re.finditer(r"(?<![\w>:])::\s*([A-Za-z]\w*)\s*\(", s_nodef):
